@@ -8,4 +8,6 @@ cp /repo/Cargo.lock replay/Cargo.lock
 ( cd replay && RUSTFLAGS="--cfg jsonrpsee_verif" CARGO_TARGET_DIR=/verif/replay/target cargo build --release --offline --bins ) || echo "warning: replay probes did not build (replay will report it)"
 printf 'use vstd::prelude::*;\nverus!{ proof fn warm() ensures true {} }\nfn main(){}\n' > build/warm.rs
 verus build/warm.rs >/dev/null 2>&1 || true
+cp /repo/Cargo.lock kani/Cargo.lock
+( cd kani && CARGO_TARGET_DIR=/verif/kani/target timeout 1200 cargo kani --harness harnesses::error_code_int_kind_int --exact >/dev/null 2>&1 ) || echo "warning: kani warm-up failed"
 echo setup done
